@@ -5,7 +5,7 @@ import MetadorModel.Proofs.ContainerDrvCong
 Above `TOCSchemas` the container code reads the caches only through `alGet s.c.tocPath`,
 `findMissing`, `linkResolve`, `Handle.get`; everything else is the raw tree. After every
 `let s ← getSt` the reads of the left snapshot are rewritten into reads of the right one
-(`nodeKind_congr`, `openHandle_congr`, `findMissing_congr`, …); then both sides are the same
+(`c9_nodeKind_congr`, `openHandle_congr`, `findMissing_congr`, …); then both sides are the same
 program and the descent is structural.
 -/
 namespace MetadorModel.Container
@@ -35,14 +35,14 @@ theorem CachesEqv.setTocPath {c c' : Caches} (h : CachesEqv c c') (u : Nat) (tp 
     CachesEqv { c with tocPath := alSet c.tocPath u tp } { c' with tocPath := alSet c'.tocPath u tp } :=
   ⟨fun k => by
       show alGet (alSet c.tocPath u tp) k = alGet (alSet c'.tocPath u tp) k
-      rw [alGet_alSet, alGet_alSet, h.tocPath k],
+      rw [c9_alGet_alSet, c9_alGet_alSet, h.tocPath k],
    h.parents, h.pkginfos, h.providers, h.schemas, h.children, h.used⟩
 
 theorem CachesEqv.eraseTocPath {c c' : Caches} (h : CachesEqv c c') (u : Nat) :
     CachesEqv { c with tocPath := alErase c.tocPath u } { c' with tocPath := alErase c'.tocPath u } :=
   ⟨fun k => by
       show alGet (alErase c.tocPath u) k = alGet (alErase c'.tocPath u) k
-      rw [alGet_alErase, alGet_alErase, h.tocPath k],
+      rw [c9_alGet_alErase, c9_alGet_alErase, h.tocPath k],
    h.parents, h.pkginfos, h.providers, h.schemas, h.children, h.used⟩
 
 theorem CongO.setTocPath (u : Nat) (tp : Path) :
@@ -77,7 +77,7 @@ macro_rules
   | `(tactic| cong_step) => `(tactic| first
       | cong_leaf
       | (with_reducible refine Cong.getSt_bind (fun s s' h => ?_)
-         try simp only [nodeKind_congr h, openHandle_congr h, findMissing_congr h, h.1, h.2.2.tocPath])
+         try simp only [c9_nodeKind_congr h, openHandle_congr h, findMissing_congr h, h.1, h.2.2.tocPath])
       | with_reducible refine CongO.bind ?_ (fun _ => ?_)
       | with_reducible refine Cong.forEachM _ (fun _ _ => ?_)
       | (split <;> try (rename_i hq; rw [hq]))
@@ -269,7 +269,7 @@ theorem obsEq_congruent (e : Env) : Congruent e ObsEq := by
   cases op with
   | onMeta p ops =>
     dsimp only
-    rw [nodeKind_congr hs]
+    rw [c9_nodeKind_congr hs]
     split
     · rfl
     · split
